@@ -654,8 +654,8 @@ class C01(EvalProp):
     id = 'C01'
     what = 'returned values / failure'
     rule = ('seeded document-aware path generator (every step kind, filters nested <= 2, functions) x generated '
-            'documents (float64 and json.Number); a case is non-trivial when retrieval succeeds with >= 2 values, or '
-            'succeeds on a path of >= 3 steps')
+            'documents (float64 and json.Number); names registered both as a filter and as an aggregate function; a case is '
+            'non-trivial when retrieval succeeds with >= 2 values, or succeeds on a path of >= 3 steps')
 
     def quick_n(self):
         return 8000
@@ -680,6 +680,16 @@ class C01(EvalProp):
             path = form % ((head, tail) if form.count('%s') == 2 else (head, tail, r.choice(['[0]', '.a', '[*]'])))
             doc = body if '$.x' not in path else ('o', [(b'x', body)])
             cs.append(Case('mo%d' % i, path.encode(), [doc], meta={'family': 'multi-entry-operand-head', 'nsteps': 2}))
+        # one name registered both as a filter function and as an aggregate function: `.name()` is the filter function
+        for i in range(max(16, n // 300)):
+            fname = r.choice(['cnt', 'first', 'arr', 'amax'])        # an aggregate's name also registered as a filter function (which fails)
+            aname = r.choice(['twice', 'wrap', 'id', 'tn'])          # a filter function's name also registered as an aggregate (which fails)
+            doc = r.choice([('a', [('n', float(k)) for k in range(1, r.randint(2, 4) + 1)]),
+                            ('o', [(b'a', ('a', [('n', 1.0), ('n', 2.0), ('n', 3.0)])), (b'b', ('n', 4.0))])])
+            nm = r.choice([fname, aname])
+            path = r.choice(['$[*].%s()', '$.*.%s()', '$.a[1:].%s().cnt()', '$[?(@.%s() > 0)]', '$.a.%s()', '$..%s()', '$.a[*].%s().%s()' % ('%s', aname)]) % nm
+            cs.append(Case('du%d' % i, path.encode(), [doc], gens.FILTER_FUNCS + [fname], gens.AGG_FUNCS + [aname], False, False, 'eval',
+                           meta={'family': 'dual-registered-name', 'nsteps': 2}))
         # tree dumps for a subset: parser model vs the real parser, node by node
         for c in cs[: max(50, n // 10)]:
             c.mode = 'tree'
@@ -801,7 +811,8 @@ class C03(EvalProp):
     id = 'C03'
     what = 'outcome class of evaluation'
     rule = ('parsable generated paths (integer literals at the int64 limits included) x documents incl. empty '
-            'containers, null/scalar roots, both decodings; non-trivial when the path parses and the root is a container')
+            'containers, null/scalar roots, both decodings; filters over arrays of 257..600 elements; one parsed function called '
+            '1100 times where nothing matches, then where something does; non-trivial when the path parses and the root is a container')
 
     def quick_n(self):
         return 4000
@@ -829,6 +840,20 @@ class C03(EvalProp):
             el = [('n', float(k)) for k in range(ln)]
             cs.append(Case('bi%d' % i, gens.render_path(st), [r.choice([('a', el), ('a', [('a', el), ('a', [])]), ('o', [(b'k', ('a', el))])])]))
         cs += bigint_filter_cases(r, max(40, n // 40), with_doc=True)
+        # filters over arrays of several hundred elements (verdict lists longer than any block a filter might work in)
+        for i in range(max(6, n // 600)):
+            ln = r.choice([257, 258, 300, 513, 600])
+            doc = ('a', [('o', [(b'a', ('n', float(k % 7)))]) for k in range(ln)])
+            path = r.choice(['$[?(@.a >= 1)]', '$[?(@.a)]', '$[?(@.a == 3)].a', '$[?(!@.b)]', '$[?(@.a > 100)]', '$[?(@.a < 2 || @.a > 5)]', '$..[?(@.a == 6)]'])
+            cs.append(Case('la%d' % i, path.encode(), [doc], meta={'family': 'long-array-filter'}))
+        # one parsed function evaluated more than a thousand times where nothing matches (anything a failing evaluation does
+        # not give back is gone after that many calls), then once where something does
+        two = ('o', [(b'a', ('o', [(b'x', ('n', 1.0))])), (b'b', ('o', [(b'y', ('n', 2.0))]))])
+        hit = ('o', [(b'a', ('o', [(b'zzz', ('n', 9.0))])), (b'b', ('o', [(b'y', ('n', 2.0))]))])
+        for i, (path, d0, d1) in enumerate([(b'$[?(@.zzz)]', two, hit), (b'$.*[?(@.zzz)]', ('a', [two]), ('a', [('o', [(b'p', hit), (b'q', two)])])),
+                                            (b'$..[?(@.zzz > 5)]', ('o', [(b'k', two), (b'l', ('n', 1.0))]), ('o', [(b'k', hit), (b'l', ('n', 1.0))])),
+                                            (b'$[?(@.zzz)]', ('o', [(b'a', ('n', 1.0))]), ('o', [(b'a', ('o', [(b'zzz', ('n', 1.0))]))]))]):
+            cs.append(Case('many%d' % i, path, [d0] * 1100 + [d1, d0], meta={'family': 'many-failing-calls'}))
         return cs
 
     def project(self, o, c):
@@ -1037,7 +1062,7 @@ class C02(EvalProp):
         return f
 
     def extra(self, ctx, res, g, budget_scale):
-        """bounded time: filters nested in filter operands 8..30 levels deep (<= 256 characters).  Every level
+        """bounded time: filters nested in filter operands 8..30 levels deep (<= 256 characters) and 65..130 levels deep.  Every level
         re-enters the operand rule from several alternatives, so only a linear-time parser returns; the outcome
         is known by construction.  Implementation only, short time limit: the Coq interpreter has no memo table
         (its theorem bounds rule-call depth, not time)."""
@@ -1055,6 +1080,16 @@ class C02(EvalProp):
             for k, (path, want) in enumerate(shapes):
                 if len(path) <= 256:
                     cases.append((Case('deep%d_%d' % (d, k), path, [], [], [], meta={'kind': 'deep-filter', 'depth': d}), want))
+        # the same shapes far beyond 256 characters: 65..130 filters open at once (a parser that keeps a stack per open filter
+        # must not run into a limit of its own making: the grammar has none)
+        for d in sorted(set([65, 66, 80, 128] + [r.randint(65, 130) for _ in range(2)])):
+            for k, (path, want) in enumerate([
+                    (b'$' + b'[?(@.a' * d + b' == 1' + b')]' * d, 'ok'),
+                    (b'$' + b'[?(@.k' * d + b')]' * d, 'ok'),
+                    (b'[?(@.a' * d + b')]' * d, 'ok'),
+                    (b'$' + b'[?(!@.x' * d + b')]' * d, 'ok'),
+                    (b'$' + b'[?(@.x' * d + b'==1)]' * d, 'syn')]):
+                cases.append((Case('vdeep%d_%d' % (d, k), path, [], [], [], meta={'kind': 'deep-filter', 'depth': d}), want))
         # long chains of one step kind (<= 256 characters): every step shares the nodes after it with the inner identifiers of
         # a multi-name selector, so anything that walks the tree once per identifier is exponential in the chain length
         for reps in sorted(set([12, 16, 20, 24, 28] + [r.randint(10, 28) for _ in range(3)])):
@@ -1268,7 +1303,8 @@ class C11(Prop):
     rule = ('`$[s:e:t]` / `$[n]` on arrays whose elements are their own indices; quick: a seeded sample of the small '
             'scope (s,e,t in {omitted} U [-7..7], len 0..6) plus every bound drawn from the boundary magnitudes '
             '{+-2^31, +-(2^63-1), -2^63, +-len, +-(len+1)}; thorough: the whole small scope (exhaustive). Expected '
-            'values come from Python\'s own slice/range and from the Coq model. Non-trivial: the selection is non-empty '
+            'values come from Python\'s own slice/range and from the Coq model; unions of 2..4 plain indexes in ascending, '
+            'descending and arbitrary order, some beyond either end. Non-trivial: the selection is non-empty '
             'or a bound was clamped')
     trusted = ['coq/Slice.v: hand-written model of syntax_subscript_*.go (64-bit wrap explicit), tied to the code by the '
                'correspondence check', 'Python list slicing as the independent reference']
@@ -1358,6 +1394,18 @@ class C11(Prop):
                 want += [vals[j] for j in idx]
             cases.append(Case('n%d' % k, gens.render_path(steps), [doc, doc]))
             expect.append(want if True else None)
+        # unions of plain indexes in ascending, descending and arbitrary order, some beyond either end of the array: every
+        # subscript selects on its own, whatever the others do
+        for k in range(ctx.n(300, 3000) * budget_scale):
+            n = r.randint(0, 5)
+            ix = [r.randint(-n - 3, n + 2) for _ in range(r.randint(2, 4))]
+            o = r.random()
+            if o < 0.5:
+                ix.sort()
+            elif o < 0.65:
+                ix.sort(reverse=True)
+            cases.append(Case('u%d' % k, ('$[%s]' % ','.join(str(i) for i in ix)).encode(), [('a', [('n', float(i)) for i in range(n)])]))
+            expect.append([j for i in ix for j in py_index_ref(n, i)])
         go, mo = both_sides(cases)
         for c, g, m, want in zip(cases, go, mo, expect):
             res.evaluations += 1
@@ -1631,7 +1679,8 @@ class C06(Prop):
     needs_race = True
     rule = ('scenarios run with the race detector (runner built -race, GORACE halt_on_error): 2..16 goroutines share '
             'parsed functions (a corpus covering every node and comparator kind plus generated paths) and documents, '
-            'interleaved with Parse calls; each goroutine result is compared with the sequential result; a race report '
+            'interleaved with Parse calls; 300..2000 goroutines parked inside one retrieval each at the same moment (a user '
+            'function holds them until all have arrived); each goroutine result is compared with the sequential result; a race report '
             'kills the worker and is reported. Non-trivial: >= 2 goroutines x >= 2 shared functions. This part is '
             'testing, not proof (DESIGN §6 C06)')
     trusted = TRUSTED_EVAL + ['Go scheduler, sync.Mutex, sync.Pool and the Go memory model are not modelled; the race '
@@ -1683,11 +1732,24 @@ class C06(Prop):
             cid = 'cold%d' % i
             raws.append(RawCase(cid, json.dumps({'id': cid, 'mode': 'cold', 'ops': ops, 'threads': threads}),
                                 meta={'threads': threads, 'cold': True, 'paths': [unhx(o['path_hex']).decode('utf-8', 'replace') for o in ops if o['op'] == 'parse']}))
+        # far more callers in flight than processors: several hundred to over a thousand goroutines are inside one retrieval each
+        # at the same moment (a user function parks them until all have arrived); the library has no limit on concurrent callers
+        for i in range(2 if ctx.quick else 6):
+            threads = [1100, 300, 700, 1500, 520, 2000][i]
+            pdoc = ('o', [(b'a', ('s', b'x')), (b'list', ('a', [('o', [(b'a', ('n', float(k))), (b'b', ('n', float(k)))]) for k in range(1, 5)]))])
+            ops = [{'op': 'parse', 'path_hex': hx(p), 'filters': ['park', 'twice'], 'aggs': ['cnt'], 'acc': False}
+                   for p in [b'$.a.park()', b'$.list[?(@.a.park() > 1 && @.b.park() < 4)].a', b'$.list[*].a.park().twice()', b'$.list[?(@.a.park() > $.list[0].a)].b.cnt()']]
+            ops.append({'op': 'doc', 'doc': core.doc_go(pdoc)})
+            cid = 'park%d' % i
+            raws.append(RawCase(cid, json.dumps({'id': cid, 'mode': 'parked', 'ops': ops, 'threads': threads}),
+                                meta={'threads': threads, 'paths': [unhx(o['path_hex']).decode('utf-8', 'replace') for o in ops if o['op'] == 'parse']}))
         env_runner = core.RUNNER_RACE
         os.environ['GORACE'] = 'halt_on_error=1'
         gos = core.run_go(raws, jobs=4, timeout_ms=120000, runner=env_runner)
         for raw, g_ in zip(raws, gos):
             res.evaluations += 1
+            if g_.get('PARKED', '').startswith('ok:'):
+                g_['CONC'] = g_['PARKED']
             if g_.get('CONC', '').startswith('ok:') or g_.get('COLD', '').startswith('ok:'):
                 res.nontrivial.add(raw.id)
                 res.dist['threads-%d' % raw.meta['threads']] += 1
@@ -1695,7 +1757,7 @@ class C06(Prop):
                     res.sample({'threads': raw.meta['threads'], 'paths': raw.meta['paths'], 'observed': g_['CONC']})
                 continue
             what = 'data race or crash under the race detector' if g_.get('P') in ('crash', 'timeout') or g_.get('COLD') == 'race' else \
-                'concurrent result differs from sequential: %s' % (g_.get('DIFF') or g_.get('COLD'))
+                'concurrent result differs from sequential: %s' % (g_.get('DIFF') or g_.get('COLD') or g_.get('PARKED'))
             res.violation('concrete', 'conc|' + '|'.join(raw.meta['paths']), what,
                           {'scenario': json.loads(raw.text), 'paths': raw.meta['paths']}, observed=g_)
 
@@ -2943,7 +3005,9 @@ class C13(Prop):
     rule = ('accessor mode, documents with pairwise distinct leaves: for every accessor index i a unique sentinel is Set '
             'on a fresh copy of the document, the document is searched for it (exactly one location, everything else '
             'unchanged, Get returns it afterwards) and the location is compared with the one the model predicts; Set must be '
-            'nil exactly for the root and for function outputs. Non-trivial: >= 2 accessors on a document of depth >= 2')
+            'nil exactly for the root and for function outputs; Set stores the very object given (identity: a later change of it '
+            'shows through Get, an object stored before is left alone, read-modify-write and wrapping the current value keep it). '
+            'Non-trivial: >= 2 accessors on a document of depth >= 2')
     trusted = TRUSTED_EVAL + ['documents are trees (no sub-map or sub-slice reachable twice)',
                               'members of a function output are outside the property (DESIGN §6 C13)']
 
@@ -3686,7 +3750,9 @@ class C18(Prop):
     id = 'C18'
     rule = ('each generated path AST rendered in 2..6 random spellings (optional spaces at every point the grammar allows, '
             'quote style, +sign / leading zeros, .* vs [*], .name vs [\'name\'], leading $ omitted) over generated documents: all '
-            'spellings must return the same values, or errors of the same type; each spelling also compared with the model. '
+            'spellings must return the same values, or errors of the same type; each spelling also compared with the model; '
+            'wildcard-then-names paths in pure dot notation and six other spellings on members failing at different depths; '
+            'spellings of very different lengths (300..1100 blanks at allowed places, 120..150 names in dot and bracket form). '
             'Non-trivial: >= 2 distinct spellings and the path selects something or has >= 2 steps')
     trusted = TRUSTED_PARSE + TRUSTED_EVAL
 
@@ -3732,6 +3798,47 @@ class C18(Prop):
                          (b'\xc3\xa9', ('n', 6.0)), (b'\\', ('n', 7.0)), (b'/', ('n', 8.0)), (b'\t', ('n', 9.0)), (b'\x01', ('n', 10.0))])
             grp = [Case('q%d_s' % i, b"$['" + body + b"']", [doc], meta={'nsteps': 2}),
                    Case('q%d_d' % i, b'$["' + body + b'"]', [doc], meta={'nsteps': 2})]
+            cases += grp
+            groups.append(grp)
+        # a wildcard followed by names, written purely in dot notation and in the other spellings, on members that fail at different
+        # depths in different orders: the error reported is the deepest one whatever the spelling
+        for i in range(max(24, n // 30)):
+            names = [r.choice(['a', 'b', 'c']) for _ in range(r.randint(2, 3))]
+
+            def failing(d, kind):
+                v = ('n', 1.0) if kind == 't' else ('o', [(b'zz', ('n', 1.0))])
+                for nm in reversed(names[:d]):
+                    v = ('o', [(nm.encode(), v)])
+                return v
+            elems = [failing(r.randint(0, len(names) - 1), r.choice('tm')) for _ in range(r.randint(2, 4))]
+            doc = ('a', elems) if r.random() < 0.6 else ('o', [(('k%d' % j).encode(), e) for j, e in enumerate(elems)])
+            dot = '.'.join(names)
+            br = ''.join("['%s']" % nm for nm in names)
+            texts = ['$.*.' + dot, '*.' + dot, '$[*].' + dot, '$[*]' + br, ' $.*.' + dot, '[*].' + dot, '$.*' + br, '$.*.' + dot + ' ']
+            grp = [Case('de%d_%d' % (i, j), t.encode(), [doc], meta={'nsteps': 1 + len(names), 'family': 'deepest-error-spellings'}) for j, t in enumerate(texts)]
+            cases += grp
+            groups.append(grp)
+        # spellings of very different lengths (beyond a thousand characters): blanks wherever the grammar allows them, bracket names
+        # against dot names on a long chain
+        pad = lambda: ' ' * r.choice([300, 600, 1100])
+        ldoc = ('o', [(b'a', ('a', [('n', 10.0), ('n', 20.0), ('n', 30.0)])), (b'b', ('n', 1.0))])
+        for i, (short, mk) in enumerate([("$['a'][0,2]", lambda: "$[" + pad() + "'a'" + pad() + "][0" + pad() + "," + pad() + "2]"),
+                                         ('$.a[0:2]', lambda: '$.a[0' + pad() + ':' + pad() + '2]'),
+                                         ('$.a[?(@>10)]', lambda: '$.a[?(' + pad() + '@' + pad() + '>' + pad() + '10' + pad() + ')]'),
+                                         ('$.a[1]', lambda: pad() + '$.a[1]' + pad()),
+                                         ("$['a','b']", lambda: "$['a'" + pad() + ',' + pad() + "'b']"),
+                                         ('$.a[?(@==10||@==30)]', lambda: '$.a[?(@==10' + pad() + '||' + pad() + '@==30)]')]):
+            grp = [Case('ln%d_0' % i, short.encode(), [ldoc], meta={'nsteps': 2, 'family': 'long-spellings'}),
+                   Case('ln%d_1' % i, mk().encode(), [ldoc], meta={'nsteps': 2, 'family': 'long-spellings'})]
+            cases += grp
+            groups.append(grp)
+        for i, depth in enumerate([120, 150]):
+            v = ('n', 7.0)
+            for _ in range(depth):
+                v = ('o', [(b'k0123', v)])
+            grp = [Case('lc%d_0' % i, ('$' + '.k0123' * depth).encode(), [v], meta={'nsteps': depth, 'family': 'long-spellings'}),
+                   Case('lc%d_1' % i, ('$' + "['k0123']" * depth).encode(), [v], meta={'nsteps': depth, 'family': 'long-spellings'}),
+                   Case('lc%d_2' % i, ('$' + '["k0123"]' * depth).encode(), [v], meta={'nsteps': depth, 'family': 'long-spellings'})]
             cases += grp
             groups.append(grp)
         go, mo = both_sides(cases)
@@ -3794,7 +3901,8 @@ class C19(Prop):
     rule = ('histories of <= 10 Parse/Retrieve calls in one process mixing valid paths, paths failing at every kind of '
             'action (bad number, unknown function, script, value-group comparison, two current nodes, bad regex, bad escape, '
             'trailing garbage — also while a filter operand is half built), configs with different function sets / accessor '
-            'mode / no config, and configs modified after Parse; every outcome is compared with the same call made alone '
+            'mode / no config, and configs modified after Parse; the same quoted text met twice (a single-quoted name the decoder '
+            'rejects; one backslash-letter text as a filter literal and as a double-quoted name); every outcome is compared with the same call made alone '
             'in a fresh history and with the model (a pure function of path and config); the parser action state is read '
             'after every call through the verif hook. Non-trivial: a failing Parse is followed by a Parse with another or no config')
     trusted = TRUSTED_PARSE + ['value capture of Go closures (functions kept after the Config is modified) is observed dynamically only']
@@ -3854,6 +3962,32 @@ class C19(Prop):
                 d = r.choice([jdoc, sdoc, doc])
                 cfg = {'filters': [], 'aggs': [], 'acc': False, 'nocfg': True}
                 ops.append((dict(op='retrieve', path_hex=hx(path), doc=core.doc_go(d), mutate=False, **cfg), d))
+            hists.append((ops, True))
+        # the same quoted text met again later in the process: a single-quoted name the decoder rejects (a raw control character)
+        # parsed twice, in one path or another; the same backslash-letter text once as a string literal of a filter (the
+        # backslash is dropped) and once as a double-quoted member name (a JSON escape), in either order
+        edoc = ('o', [(b'', ('n', 1.0)), (b'x', ('o', [(b'', ('n', 2.0)), (b'k\tey', ('n', 3.0))])), (b'k\tey', ('n', 4.0)),
+                      (b'anb', ('o', [(b's', ('s', b'anb'))])), (b'a\nb', ('o', [(b's', ('s', b'a\nb'))])),
+                      (b'xty', ('o', [(b's', ('s', b'xty'))])), (b'x\ty', ('o', [(b's', ('s', b'x\ty'))]))])
+        for i in range(max(24, n // 40)):
+            ops = []
+            nocfg = {'filters': [], 'aggs': [], 'acc': False, 'nocfg': True}
+            if r.random() < 0.5:
+                raw = r.choice([b'k\tey', b'\n', b'a\x01', b'k\tey'])
+                paths = [b"$['" + raw + b"']", b"$.x['" + raw + b"']", b"$..['" + raw + b"']", b"$['" + raw + b"','x']", b"$['" + raw + b"']"]
+                seq = [r.choice(paths) for _ in range(r.randint(2, 4))]
+            else:
+                raw = r.choice([b'a\\nb', b'x\\ty', b'a\\nb', b'\\u0041', b'q\\rb', b'\\f'])
+                q = r.choice([b"'", b'"'])
+                lit = [b'$[?(@.s==' + q + raw + q + b')]', b'$.*[?(@==' + q + raw + q + b')]', b'$[?(@.s!=' + q + raw + q + b')].s']
+                nam = [b'$["' + raw + b'"]', b'$..["' + raw + b'"]', b'$["' + raw + b'"].s']
+                seq = [r.choice(lit), r.choice(nam)]
+                if r.random() < 0.5:
+                    seq.reverse()
+                seq.append(r.choice(lit + nam))
+            for path in seq:
+                cfg = nocfg if r.random() < 0.6 else {'filters': gens.FILTER_FUNCS, 'aggs': gens.AGG_FUNCS, 'acc': r.random() < 0.3, 'nocfg': False}
+                ops.append((dict(op='retrieve', path_hex=hx(path), doc=core.doc_go(edoc), mutate=False, **cfg), edoc))
             hists.append((ops, True))
         # something very large just before: a path of thousands of steps, a retrieval returning more than a thousand values
         # (oversized parser tables and pooled buffers are what a library may decide to rebuild or trim), then ordinary calls
